@@ -18,14 +18,15 @@ var planTimeout = 8 * time.Second
 var rrTimeout = 3 * time.Second
 var lastPanic string
 
-// Plan calls that did not return keep spinning in their goroutine; after three of them per strategy the
+// Plan calls that did not return keep spinning in their goroutine; after gaveUpLimit of them per strategy the
 // harness stops calling that strategy (the failures are already recorded)
 var gaveUp = map[string]int{}
+var gaveUpLimit = 3
 
 // callPlan runs the real strategy in a goroutine guarded by a timeout.
 // status: ok | err | diverges | panic
 func callPlan(strat string, g *Group) (sarama.BalanceStrategyPlan, string) {
-	if gaveUp[strat] >= 3 {
+	if gaveUp[strat] >= gaveUpLimit {
 		return nil, "skipped"
 	}
 	members, topics := g.saramaInput()
